@@ -335,24 +335,45 @@ Definition load_verify_locations (c : sslctx) :=
   mksslctx (for_client c) (verify c) (check_hostname c) true (own_cert c) (ciphers_set c).
 Definition when {A} (b : bool) (f : A -> A) (x : A) : A := if b then f x else x.
 
-(* None = FileNotFoundError (the key and certificate files exist in every case considered) *)
-Definition mk_ssl_contexts (ca : cafile) (cyphers : bool) : option (sslctx * sslctx) :=
-  match ca with
-  | CaMissing => None
-  | _ =>
+(* argument space of mk_ssl_contexts / mk_ssl_contexts_from_folder (the key and certificate files exist in every case
+   considered):
+     CA file      not named | named and present | NAMED BUT MISSING
+     cyphers      none | given (file present) | cyphers file named but missing (folder loader only)
+     password     fits the key (or the key is not encrypted and none is given) | wrong
+   Order in the code: the cyphers file is read first (FileNotFoundError), then key / certificate / CA paths are checked
+   (FileNotFoundError for a named CA file that does not exist - it is never treated as "not named"), then
+   load_cert_chain (ssl.SSLError for a wrong password). *)
+Inductive cyfile := CyNone | CyGiven | CyMissing.
+Inductive sslres := CtxOk (client server : sslctx) | CtxNotFound | CtxSslError.
+
+Definition mk_ssl_contexts (ca : cafile) (cy : cyfile) (pw_ok : bool) : sslres :=
+  match cy, ca with
+  | CyMissing, _ => CtxNotFound
+  | _, CaMissing => CtxNotFound
+  | _, _ =>
+      if negb pw_ok then CtxSslError else
       let has_ca := match ca with CaGiven => true | _ => false end in
+      let cyphers := match cy with CyGiven => true | _ => false end in
       let client :=
         when has_ca load_verify_locations (when has_ca (set_verify CertRequired)
           (when cyphers set_ciphers (load_cert_chain (set_check_hostname false (new_ctx true))))) in
       let server :=
         when has_ca load_verify_locations (when has_ca (set_verify CertRequired)
           (when cyphers set_ciphers (load_cert_chain (new_ctx false)))) in
-      Some (client, server)
+      CtxOk client server
   end.
 
 Definition requires_peer_cert_b (c : sslctx) : bool :=
   match verify c with CertRequired => ca_loaded c | _ => false end.
 Definition requires_peer_cert (c : sslctx) : Prop := verify c = CertRequired /\ ca_loaded c = true.
+
+(* the caller NAMED a CA file: either both contexts require and verify the peer certificate, or the call raised *)
+Definition named_ca_ok (r : sslres) : Prop :=
+  match r with CtxOk c s => requires_peer_cert c /\ requires_peer_cert s | _ => True end.
+Definition named_ca_ok_b (r : sslres) : bool :=
+  match r with CtxOk c s => requires_peer_cert_b c && requires_peer_cert_b s | _ => true end.
+(* handshake abstraction: a server context lets a client WITHOUT certificate in iff it does not require one *)
+Definition accepts_anonymous_client (s : sslctx) : bool := negb (requires_peer_cert_b s).
 
 (* ------------------------------------------------------------------ correspondence: codes and scenario runner *)
 Definition zb (b : bool) : Z := if b then 1 else 0.
@@ -518,10 +539,12 @@ Definition trace_eqb (a b : list Z * list Z) : bool :=
 Definition code_vmode (v : vmode) : Z := match v with CertNone => 0 | CertOptional => 1 | CertRequired => 2 end.
 Definition code_sslctx (c : sslctx) : list Z :=
   [zb (for_client c); code_vmode (verify c); zb (check_hostname c); zb (ca_loaded c)].
-Definition run_ctx (p : cafile * bool) : list Z :=
-  match mk_ssl_contexts (fst p) (snd p) with
-  | None => [1]
-  | Some (c, s) => 0 :: code_sslctx c ++ code_sslctx s
+(* [status (0 ok | 1 FileNotFoundError | 2 ssl.SSLError); client flags; server flags; an anonymous TLS client is let in] *)
+Definition run_ctx (ca : cafile) (cy : cyfile) (pw_ok : bool) : list Z :=
+  match mk_ssl_contexts ca cy pw_ok with
+  | CtxNotFound => [1]
+  | CtxSslError => [2]
+  | CtxOk c s => 0 :: code_sslctx c ++ code_sslctx s ++ [zb (accepts_anonymous_client s)]
   end.
 Definition run_defaults (_ : unit) : list Z := 0 :: code_sslctx (new_ctx true) ++ code_sslctx (new_ctx false).
 
@@ -553,7 +576,7 @@ Inductive anycase :=
 | AWorld (c : scase)
 | AForeign (c : fcase)
 | ADefaults
-| ACtx (ca : cafile) (cyphers : bool)
+| ACtx (ca : cafile) (cy : cyfile) (pw_ok : bool)
 | AClient (ctx : option ctxid).
 
 Definition run_any (a : anycase) : list Z * list Z :=
@@ -561,6 +584,6 @@ Definition run_any (a : anycase) : list Z * list Z :=
   | AWorld c => run_case c
   | AForeign c => run_foreign c
   | ADefaults => (run_defaults tt, [])
-  | ACtx ca cy => (run_ctx (ca, cy), [])
+  | ACtx ca cy pw => (run_ctx ca cy pw, [])
   | AClient c => ([code_event (mk_http_connection RP c)], [])
   end.
